@@ -264,7 +264,7 @@ static int m_open(void *s)
 	if (oq_head < oq_tail)
 		rc = openq[oq_head++];
 	dump_tables("T");
-	tracef("O %d %lld", rc, fake_now);
+	tracef("O %d %lld %u", rc, fake_now, sock.expire_interval);
 	return rc;
 }
 
@@ -396,12 +396,39 @@ static const char *state_name(enum rtr_socket_state st)
 	return names[st];
 }
 
+static void count_own_cb(const struct pfx_record *r, void *data)
+{
+	if (r->socket == &sock)
+		(*(unsigned int *)data)++;
+}
+
+static unsigned int count_own(void)
+{
+	unsigned int n = 0;
+
+	pfx_table_for_each_ipv4_record(&pfxt, count_own_cb, &n);
+	pfx_table_for_each_ipv6_record(&pfxt, count_own_cb, &n);
+	pthread_rwlock_rdlock(&spkit.lock);
+	for (tommy_node *k = tommy_list_head(&spkit.list); k; k = k->next) {
+		struct {
+			uint8_t ski[SKI_SIZE];
+			uint32_t asn;
+			uint8_t spki[SPKI_SIZE];
+			const struct rtr_socket *socket;
+		} *e = k->data;
+		if (e->socket == &sock)
+			n++;
+	}
+	pthread_rwlock_unlock(&spkit.lock);
+	return n;
+}
+
 static void state_cb(const struct rtr_socket *s, const enum rtr_socket_state st, void *a, void *b)
 {
 	(void)s;
 	(void)a;
 	(void)b;
-	tracef("S %s", state_name(st));
+	tracef("S %s %lld %u", state_name(st), fake_now, count_own());
 }
 
 /* ------------------------------------------------------------------ parsing helpers */
